@@ -1008,7 +1008,7 @@ impl SchedX {
                         }),
                         Box::new(move || {
                             for attempt in 0..2 {
-                                let before = DirImage::snapshot(&d1).ok();
+                                let before = DirImage::snapshot_with_lock(&d1).ok();
                                 let alive_before = h1.load(Ordering::SeqCst);
                                 match open_nomt::<B3>(&d1, &cfg()) {
                                     Ok(n2) => {
@@ -1022,7 +1022,7 @@ impl SchedX {
                                     Err(_) => {
                                         // a refused open must not modify any file (the holder is idle)
                                         if alive_before && h1.load(Ordering::SeqCst) {
-                                            if let (Some(b), Ok(a)) = (before, DirImage::snapshot(&d1)) {
+                                            if let (Some(b), Ok(a)) = (before, DirImage::snapshot_with_lock(&d1)) {
                                                 let d = b.diff(&a);
                                                 if !d.is_empty() {
                                                     e1.lock().unwrap().push(format!("a refused open modified files: {d:?}"));
@@ -1786,7 +1786,7 @@ impl SchedX {
                 break 'run;
             }
             // 1. holder idle (it has committed v1): refused, and nothing on disk changes
-            let before = DirImage::snapshot(&dir).expect("snapshot");
+            let before = DirImage::snapshot_with_lock(&dir).expect("snapshot");
             for cf in [cfg(), other.clone()] {
                 out.transitions += 1;
                 if let Err(m) = try_open(&cf) {
@@ -1794,7 +1794,7 @@ impl SchedX {
                     break 'run;
                 }
             }
-            let after = DirImage::snapshot(&dir).expect("snapshot");
+            let after = DirImage::snapshot_with_lock(&dir).expect("snapshot");
             let d = before.diff(&after);
             if !d.is_empty() {
                 fail(&mut out, "refused-open-modified-files", format!("an open refused because another process holds the directory changed files: {d:?}"));
